@@ -5,6 +5,8 @@ import "verif/harness/vk"
 
 func All() []*vk.Check {
 	return []*vk.Check{
+		C01(),
+		C02(),
 		C07(),
 		C08(),
 		C09(),
